@@ -24,12 +24,14 @@ def gen_scenario(rng):
     # optionally force a failure exactly on the final flush (the last attempt before the marker)
     pauses = [[rng.choice([0, 0, 0, 0.03, 0.12, 0.3]) for _ in p] for p in split]
     return {"batch": batch, "period": period, "producers": split, "pauses": pauses, "fails": fails,
-            "max_size": rng.choice([None, None, 4, 20]), "exit_mode": rng.choice(["stop", "stop", "with"])}
+            "max_size": rng.choice([None, None, 4, 20]), "exit_mode": rng.choice(["stop", "stop", "with"]),
+            # the queue is made by a thread that ends at once (a set-up helper): the worker must outlive its maker
+            "ctor": rng.random() < 0.25}
 
 
 def shape(sc):
-    return "b%d:p%s:%s:f%s:%s" % (sc["batch"], sc["period"], "/".join(str(len(p)) for p in sc["producers"]),
-                                   "".join("x" if f else "." for f in sc["fails"]), sc["exit_mode"])
+    return "b%d:p%s:%s:f%s:%s%s" % (sc["batch"], sc["period"], "/".join(str(len(p)) for p in sc["producers"]),
+                                     "".join("x" if f else "." for f in sc["fails"]), sc["exit_mode"], ":ctor" if sc.get("ctor") else "")
 
 
 class SinkFailure(Exception):
@@ -146,7 +148,13 @@ def run_scenario(sc, chooser=None, seed=0, max_steps=60000):
 
     def main_body():
         threads.start_main_thread()
-        tq = queues.ThreadedQueue("TQ", Sink(), batch_size=sc["batch"], max_size=sc["max_size"], period=sc["period"], silent=True)
+        if sc.get("ctor"):
+            def make(please_stop):
+                box["tq"] = queues.ThreadedQueue("TQ", Sink(), batch_size=sc["batch"], max_size=sc["max_size"], period=sc["period"], silent=True)
+            threads.Thread.run("maker", make).join()
+            tq = box["tq"]
+        else:
+            tq = queues.ThreadedQueue("TQ", Sink(), batch_size=sc["batch"], max_size=sc["max_size"], period=sc["period"], silent=True)
         box["tq"] = tq
         sched.trace(tq.thread.please_stop, "WPS")
         prods = []
